@@ -401,7 +401,8 @@ class Contract:
 
 
 class Loop:
-    def __init__(self, invariant=(), decreases=None, modifies=None, note=''):
+    def __init__(self, invariant=(), decreases=None, modifies=None, note='', ghost=()):
+        self.ghost = list(ghost)        # ghost variables the loop body updates (havoced at the loop head)
         self.invariant = list(invariant)
         self.decreases = decreases
         self.modifies = modifies
@@ -490,10 +491,10 @@ class SeqView:
         self.facts = list(facts)
 
 
-PURE_METHODS = {'get', 'keys', 'values', 'items', 'copy', 'find', 'index', 'count', 'startswith',
+PURE_METHODS = {'get_flags', 'get', 'keys', 'values', 'items', 'copy', 'find', 'index', 'count', 'startswith',
                 'endswith', 'lower', 'upper', 'is_set', 'issubset', 'isdisjoint', 'union', 'intersection',
                 'difference', 'flatten', 'iter', 'decode', 'encode', 'join', 'split', 'strip'}
-FEAS_TIMEOUT_MS = int(os.environ.get('PYVC_FEAS_MS', '1500'))
+FEAS_TIMEOUT_MS = int(os.environ.get('PYVC_FEAS_MS', '300'))
 
 
 class Executor:
@@ -573,8 +574,9 @@ class Executor:
         frame = Frame(self.c, self.fnode, self.module, dict(names))
         self.frames = [frame]
         # cover: the precondition must be satisfiable (vacuity guard)
-        self.obligations.append(Obligation(f'{self.c.name}/requires/cover', list(st.pc),
-                                           z3.BoolVal(True), tuple(self.oracle.trace), kind='cover'))
+        if not self.oracle.prefix:
+            self.obligations.append(Obligation(f'{self.c.name}/requires/cover', list(st.pc),
+                                               z3.BoolVal(True), tuple(self.oracle.trace), kind='cover'))
         outcome = ('return', VNone())
         try:
             self.exec_block(self.fnode.body, frame)
@@ -722,7 +724,20 @@ class Executor:
                 raise PyRaise(asyncio.CancelledError)
 
     # ---- obligations
+    def lemma(self, name, formula):
+        """assert-then-assume (a proof step supplied by the contract): the formula is an obligation of
+        its own and is available afterwards"""
+        self.oblige(name, _b(formula))
+        self.assume(formula)
+
+    def replaying(self):
+        """still inside the decision prefix shared with the path this one was forked from: everything
+        emitted here was already emitted there"""
+        return self.oracle.pos < len(self.oracle.prefix)
+
     def oblige(self, name, goal, site=''):
+        if self.replaying():
+            return
         goal = z3.simplify(goal) if isinstance(goal, z3.ExprRef) else z3.BoolVal(bool(goal))
         if z3.is_true(goal):
             # still count it: trivially discharged on this path
@@ -732,6 +747,8 @@ class Executor:
                                            site=site, inputs=self.old_scope))
 
     def oblige_cover(self, name):
+        if self.replaying():
+            return
         self.obligations.append(Obligation(name, list(self.st.pc), z3.BoolVal(True),
                                            tuple(self.oracle.trace), kind='cover'))
 
@@ -945,8 +962,12 @@ class Executor:
 
     # ---- loops
     def loop_contract(self, frame, s):
-        i = frame.loop_ord
-        frame.loop_ord += 1
+        # the ordinal is syntactic (source order of the loop statements of the function), so that it is the
+        # same on every path and unaffected by unrelated edits elsewhere in the file
+        loops = sorted((n for n in ast.walk(frame.fnode)
+                        if isinstance(n, (ast.For, ast.While, ast.AsyncFor))),
+                       key=lambda n: (n.lineno, n.col_offset))
+        i = next(idx for idx, n in enumerate(loops) if n is s)
         lc = frame.contract.loops.get(i)
         return i, lc
 
@@ -1041,6 +1062,20 @@ class Executor:
         if self.st.out is not None and any(isinstance(n, (ast.Yield, ast.YieldFrom))
                                            for s in body for n in ast.walk(s)):
             self.st.out = self.fresh_like(self.st.out, 'out')
+        for g in (lc.ghost if lc is not None else ()):
+            cur = st.ghost[g]
+            if isinstance(cur, Value):
+                st.ghost[g] = self.fresh_like(cur, g)
+            elif isinstance(cur, z3.ExprRef):
+                st.ghost[g] = z3.Const(fresh_name(g), cur.sort())
+            else:
+                raise Unsupported(f'ghost {g} cannot be havoced')
+        self._ghost_after_havoc = dict(st.ghost)
+
+    def check_ghost_frame(self, lc, where):
+        for g, v in self.st.ghost.items():
+            if g not in lc.ghost and self._ghost_after_havoc_for.get(g) is not v:
+                raise Unsupported(f'ghost variable {g} is updated inside {where} but not declared in Loop(ghost=...)')
 
     def havoc_field(self, v, f, deep=True):
         st = self.st
@@ -1054,9 +1089,10 @@ class Executor:
                         self.havoc_field(cur, g)
             else:
                 st.store[v.rid][f] = self.fresh_like(cur, f)
-                for g in v.sort.ghost:
-                    if g != f:
-                        st.store[v.rid][g] = self.fresh_like(st.store[v.rid][g], g)
+                if f in v.sort.hooks:
+                    for g in v.sort.ghost:
+                        if g != f:
+                            st.store[v.rid][g] = self.fresh_like(st.store[v.rid][g], g)
         elif isinstance(v, VRef):
             key = (v.sort.name, f)
             if f in v.sort.attrs:
@@ -1105,6 +1141,9 @@ class Executor:
         for f in seq.facts:
             self.assume(f)
         self.assume(seq.n >= 0)
+        hook = getattr(self.c, 'loop_entry_hooks', {}).get(i) if frame is self.frames[0] else None
+        if hook is not None:
+            hook(self, frame)
         k0 = VInt(0)
         pre = Scope(self.st.snapshot(), self.all_names(frame), self.old_scope)
         for label, cl in lc.invariant:
@@ -1112,6 +1151,7 @@ class Executor:
         which = self.choose(2)
         self.havoc_for_loop(s.body + [ast.Assign(targets=[s.target], value=ast.Constant(0), lineno=0)], frame, lc)
         k = VInt(z3.Int(fresh_name('k')))
+        ghost_snap = dict(self.st.ghost)
         if which == 0:
             # arbitrary iteration
             self.assume(z3.And(k.t >= 0, k.t < seq.n))
@@ -1124,6 +1164,8 @@ class Executor:
                 pass
             except BreakEx:
                 return          # continue after the loop with the break state
+            self._ghost_after_havoc_for = ghost_snap
+            self.check_ghost_frame(lc, base)
             for label, cl in lc.invariant:
                 self.oblige(f'{base}/preserve/{label}',
                             _b(cl(self.scope(frame, {'k': k + 1, 'n': VInt(seq.n), 'seq': seq, 'pre': pre}))))
@@ -1504,6 +1546,12 @@ class Executor:
         return self.binop(e.op, a, b)
 
     def binop(self, op, a, b):
+        # an Optional[int] used arithmetically: python raises TypeError on None (outside the model: the
+        # path condition of the real code rules None out); use the value
+        if isinstance(a, VOpt) and isinstance(a.sort.inner, IntS):
+            a = a.val()
+        if isinstance(b, VOpt) and isinstance(b.sort.inner, IntS):
+            b = b.val()
         if isinstance(a, VInt) and isinstance(b, VInt):
             if isinstance(op, ast.Add):
                 return a + b
@@ -1551,6 +1599,10 @@ class Executor:
             else:
                 raise Unsupported(f'in on {type(b).__name__}')
             return r if isinstance(op, ast.In) else ~r
+        if isinstance(a, VOpt) and isinstance(a.sort.inner, IntS):
+            a = a.val()
+        if isinstance(b, VOpt) and isinstance(b.sort.inner, IntS):
+            b = b.val()
         if isinstance(a, VInt) and isinstance(b, VInt):
             if isinstance(op, ast.Lt):
                 return a < b
@@ -1676,7 +1728,11 @@ class Executor:
         if isinstance(it, Alias):
             it = self.st.read(it.loc)
         if isinstance(it, VList):
-            return SeqView(it.n, lambda k, it=it: it.elem.wrap(z3.Select(it.arr, k)), it.elem)
+            sv = SeqView(it.n, lambda k, it=it: it.elem.wrap(z3.Select(it.arr, k)), it.elem)
+            if hasattr(it, 'sorted_of'):
+                sv.of_set, sv.pos, sv.order = it.sorted_of
+                sv.lst = it
+            return sv
         if isinstance(it, VSet):
             return self.enum_set(it)
         if isinstance(it, VTuple):
@@ -1729,6 +1785,9 @@ class Executor:
         if self.st.out is None:
             raise Unsupported('yield in a function whose contract declares no `yields` sort')
         self.st.out = self.st.out.append(v)
+        hook = getattr(self.c, 'on_yield_value', None)
+        if hook is not None:
+            hook(self, frame, v)
         return VNone()
 
     def call_key(self, fnode):
